@@ -100,11 +100,11 @@ def run(ctx):
             ctx.check("message-tags", "make_dele/pubk-is-online-key", okpk, "PUBK = public key of this online key's signer",
                       "DELE.PUBK is %s" % fmt(fields[0][1]), md.loc(fields[0][2]))
             mint, maxt = fields[1][1], fields[2][1]
-            mi = W.frozen_init(mint) if mint[0] == "obj" else mint
-            ma = W.frozen_init(maxt) if maxt[0] == "obj" else maxt
-            okw = mi == ("repeat", ("int", 0), 8) and ma == ("repeat", ("int", 255), 8)
+            from lib import const_bytes
+            mi, ma = const_bytes(W, mint), const_bytes(W, maxt)
+            okw = mi == bytes(8) and ma == b"\xff" * 8
             ctx.check("message-tags", "make_dele/window-covers-every-midpoint", okw, "MINT = 8 x 0x00, MAXT = 8 x 0xff",
-                      "delegation window is MINT=%s MAXT=%s" % (fmt(mi), fmt(ma)), ctx.loc(md))
+                      "delegation window is MINT=%r MAXT=%r" % (mi, ma), ctx.loc(md))
     else:
         ctx.violation("message-tags", "make_dele/tags", "make_dele does not return a locally built message")
 
